@@ -86,11 +86,11 @@ def prune_cache(keep=3):
     ds = sorted((os.path.getmtime(os.path.join(root, d)), d) for d in os.listdir(root))
     for _, d in ds[:-keep]: shutil.rmtree(os.path.join(root, d), ignore_errors=True)
 
-def build_one(tu_text, flavour, extra_flags='', name='tu'):
+def build_one(tu_text, flavour, extra_flags='', name='tu', guard=True):
     """compile one generated TU (cached on content); returns (binary path or None, compiler output)"""
     cc, flags, hdr = FLAVOURS[flavour]
     inc = os.path.join(REPO, 'include') if hdr == 'single' else os.path.join(REPO, 'development')
-    key = sha(lib_hash(), harness_hash(), tu_text, cc, flags, extra_flags, hdr)
+    key = sha(lib_hash(), harness_hash(), tu_text, cc, flags, extra_flags, hdr, guard)
     d = os.path.join(BUILD, 'cache', lib_hash()[:12], key[:2], key)
     binp = os.path.join(d, 'bin')
     if os.path.exists(binp): return binp, ''
@@ -98,7 +98,7 @@ def build_one(tu_text, flavour, extra_flags='', name='tu'):
     os.makedirs(d, exist_ok=True)
     src = os.path.join(d, name + '.cpp')
     with open(src, 'w') as f: f.write(tu_text)
-    cmd = [cc] + flags.split() + extra_flags.split() + ['-w', '-D' + GUARD, '-I', inc, '-I', os.path.join(VERIF, 'harness'), src, '-o', binp + '.tmp']
+    cmd = [cc] + flags.split() + extra_flags.split() + ['-w'] + (['-D' + GUARD] if guard else []) + ['-I', inc, '-I', os.path.join(VERIF, 'harness'), src, '-o', binp + '.tmp']
     try:
         r = subprocess.run(cmd, capture_output=True, text=True, timeout=900)
     except subprocess.TimeoutExpired:
@@ -170,7 +170,7 @@ def load_known():
 
 def match_known(known, prop, key):
     for k in known:
-        if k.get('status', 'open') != 'open': continue
+        if k.get('status', 'open') != 'open' or not k.get('key'): continue
         if k['property'] != prop: continue
         pat = k['key']
         if pat.endswith('*'):
